@@ -15,28 +15,50 @@ theorem selects_eq_matches (f : From) (db rp : String) (r : RawPoint) :
   cases (f.db == "") <;> cases (db == f.db) <;> cases (f.rp == "") <;> cases (rp == f.rp) <;>
     cases (f.name == "") <;> cases (r.name == f.name) <;> simp <;> cases f.wh <;> rfl
 
-/-- A from-node that matches names the point's measurement or none: the task is subscribed to the point. -/
-theorem sinkGets_measurement {d : TaskDef} {i : Nat} {p : Point} (h : sinkGets d i p = true) :
-    p.name ∈ d.measurements ∨ "" ∈ d.measurements := by
-  unfold sinkGets at h
+theorem selectedBy_eq_chainGets (froms : List From) (db rp : String) (r : RawPoint) :
+    ∀ fuel i, selectedBy froms fuel i db rp r = chainGets froms fuel i (mkPoint db rp r) := by
+  intro fuel
+  induction fuel with
+  | zero => intro i; rfl
+  | succ n ih =>
+    intro i
+    simp only [selectedBy, chainGets]
+    cases froms[i]? with
+    | none => rfl
+    | some f =>
+      simp only [selects_eq_matches]
+      cases f.parent with
+      | none => rfl
+      | some j => simp only [ih]
+
+/-- A from-node that gets the point matches it itself … -/
+theorem sinkGets_self {d : TaskDef} {i : Nat} {p : Point} (h : sinkGets d i p = true) :
+    ∃ f, d.froms[i]? = some f ∧ f.matches p = true := by
+  unfold sinkGets chainGets at h
   cases hf : d.froms[i]? with
   | none => simp [hf] at h
   | some f =>
-    simp only [hf] at h
-    have hmem : f ∈ d.froms := List.mem_of_getElem? hf
-    unfold From.matches at h
-    by_cases hn : f.name = ""
-    · right; exact List.mem_map.mpr ⟨f, hmem, hn⟩
-    · left
-      by_cases hpn : p.name = f.name
-      · rw [hpn]; exact List.mem_map.mpr ⟨f, hmem, rfl⟩
-      · exfalso
-        have hn' : (f.name != "") = true := by simpa using hn
-        have hpn' : (p.name != f.name) = true := by simpa using hpn
-        simp only [hn', hpn', Bool.and_self, if_true] at h
-        split at h
-        · cases h
-        · split at h <;> cases h
+    simp only [hf, Bool.and_eq_true] at h
+    exact ⟨f, rfl, h.1⟩
+
+/-- … so it names the point's measurement or none: the task is subscribed to the point. -/
+theorem sinkGets_measurement {d : TaskDef} {i : Nat} {p : Point} (h : sinkGets d i p = true) :
+    p.name ∈ d.measurements ∨ "" ∈ d.measurements := by
+  obtain ⟨f, hf, h⟩ := sinkGets_self h
+  have hmem : f ∈ d.froms := List.mem_of_getElem? hf
+  unfold From.matches at h
+  by_cases hn : f.name = ""
+  · right; exact List.mem_map.mpr ⟨f, hmem, hn⟩
+  · left
+    by_cases hpn : p.name = f.name
+    · rw [hpn]; exact List.mem_map.mpr ⟨f, hmem, rfl⟩
+    · exfalso
+      have hn' : (f.name != "") = true := by simpa using hn
+      have hpn' : (p.name != f.name) = true := by simpa using hpn
+      simp only [hn', hpn', Bool.and_self, if_true] at h
+      split at h
+      · cases h
+      · split at h <;> cases h
 
 /-! ### one `forkPoint`, seen from one sink -/
 
